@@ -72,6 +72,10 @@ CallDiff(msgs, rest, ob) ==
      \* text that is not a well-formed unit: a command error must be queued; what exactly is skipped is not specified
      (IF \E i \in 1..Len(ob.errs) : ob.errs[i] <= 0 - 100 /\ ob.errs[i] >= 0 - 199 THEN {} ELSE {"malformed-unit-no-command-error"})
      \cup (IF ob.ret = 0 THEN {} ELSE {"ret"}) \cup {"weird"}
+     \cup (LET j == CHOOSE j \in 1..Len(rs) : rs[j].weird
+               u == DetectUnit(msgs[j], rs[j].weirdAt) IN
+           IF ~u.dataOk /\ u.items # <<>> /\ u.valid /\ ~u.incomplete /\ u.header.type \in CompleteHeaderTypes
+           THEN {"h:list-invalid-after-item-then-terminator"} ELSE {})
   ELSE LogDiff(logs, ob.log) \cup E113Diff(logs, ob)
        \cup (IF alt THEN (IF Len(CatErrs(rs)) = Len(ob.errs) THEN {} ELSE {"errs"}) ELSE IF ErrsMatch(CatErrs(rs), ob.errs) THEN {} ELSE {"errs"})
        \cup (IF partial \/ CatOut(rs) = ob.out THEN {} ELSE {"out"} \cup Hints(logs))
@@ -93,7 +97,7 @@ Walk(i, pend, D) ==
             IF "weird" \in d THEN D \cup d          \* resynchronisation is not specified: stop comparing this scenario
             ELSE Walk(i + 1, ic.rest, D \cup d)
 Diff == Walk(1, <<>>, {})
-HintNames == {"weird", "h:query-without-items", "h:failing-query-with-items", "h:command-with-items", "h:newline-inside-open-string"}
+HintNames == {"weird", "h:list-invalid-after-item-then-terminator", "h:query-without-items", "h:failing-query-with-items", "h:command-with-items", "h:newline-inside-open-string"}
 Real(d) == d \ HintNames
 Conforms == Real(Diff) = {} \/ PrintT(<<"MISMATCH", l, Diff>>)
 =============================================================================
